@@ -346,6 +346,33 @@ var checkC12Obj = register("C12/object", func(c objCase) string {
 		case "nil":
 		case "fresh":
 			b, t, e = m3.NewBase(), m3.NewTemporal(), m3.NewEnvironmental()
+		case "nil-after-chain-decodes", "fresh-after-chain-decodes":
+			// valid vectors are decoded through what the accessors of nil (or fresh) objects
+			// return — a nil accessor result is a nil-receiver decoder — and then nil / other
+			// fresh objects are probed: they must be as empty as before
+			const vb, vt = "CVSS:3.1/AV:N/AC:L/PR:N/UI:N/S:U/C:H/I:H/A:H", "CVSS:3.1/AV:N/AC:L/PR:N/UI:N/S:U/C:H/I:H/A:H/E:F/RL:O/RC:C"
+			var t0 *m3.Temporal
+			var e0 *m3.Environmental
+			if c.Kind == "fresh-after-chain-decodes" {
+				t0, e0 = m3.NewTemporal(), m3.NewEnvironmental()
+			}
+			for k := 0; k < 2; k++ {
+				if o, err := t0.BaseMetrics().Decode(vb); (o == nil) == (err == nil) {
+					return what + ": Decode through Temporal.BaseMetrics() returned neither or both of object and error"
+				}
+				if o, err := e0.BaseMetrics().Decode(vb); (o == nil) == (err == nil) {
+					return what + ": Decode through Environmental.BaseMetrics() returned neither or both of object and error"
+				}
+				if o, err := e0.TemporalMetrics().Decode(vt); (o == nil) == (err == nil) {
+					return what + ": Decode through Environmental.TemporalMetrics() returned neither or both of object and error"
+				}
+				if o, err := e0.TemporalMetrics().BaseMetrics().Decode(vb); (o == nil) == (err == nil) {
+					return what + ": Decode through Environmental.TemporalMetrics().BaseMetrics() returned neither or both of object and error"
+				}
+			}
+			if c.Kind == "fresh-after-chain-decodes" {
+				b, t, e = m3.NewBase(), m3.NewTemporal(), m3.NewEnvironmental()
+			}
 		case "reset":
 			o, err := decode3(lv, c.Vector, false)
 			if err != nil {
@@ -371,13 +398,16 @@ var checkC12Obj = register("C12/object", func(c objCase) string {
 		default:
 			return ""
 		}
+		var vs []view
 		switch lv {
 		case spec.Base:
-			return probeViews(what, views3(b, nil, nil, lv))
+			vs = views3(b, nil, nil, lv)
 		case spec.Temporal:
-			return probeViews(what, views3(nil, t, nil, lv))
+			vs = views3(nil, t, nil, lv)
+		default:
+			vs = views3(nil, nil, e, lv)
 		}
-		return probeViews(what, views3(nil, nil, e, lv))
+		return probeViews(what, emptyObjectViews(c.Kind, vs))
 	}
 	var b *m2.Base
 	var t *m2.Temporal
@@ -386,6 +416,30 @@ var checkC12Obj = register("C12/object", func(c objCase) string {
 	case "nil":
 	case "fresh":
 		b, t, e = m2.NewBase(), m2.NewTemporal(), m2.NewEnvironmental()
+	case "nil-after-chain-decodes", "fresh-after-chain-decodes":
+		const vb, vt = "AV:N/AC:L/Au:N/C:P/I:P/A:C", "AV:N/AC:L/Au:N/C:P/I:P/A:C/E:F/RL:OF/RC:C"
+		var t0 *m2.Temporal
+		var e0 *m2.Environmental
+		if c.Kind == "fresh-after-chain-decodes" {
+			t0, e0 = m2.NewTemporal(), m2.NewEnvironmental()
+		}
+		for k := 0; k < 2; k++ {
+			if o, err := t0.BaseMetrics().Decode(vb); (o == nil) == (err == nil) {
+				return what + ": Decode through Temporal.BaseMetrics() returned neither or both of object and error"
+			}
+			if o, err := e0.BaseMetrics().Decode(vb); (o == nil) == (err == nil) {
+				return what + ": Decode through Environmental.BaseMetrics() returned neither or both of object and error"
+			}
+			if o, err := e0.TemporalMetrics().Decode(vt); (o == nil) == (err == nil) {
+				return what + ": Decode through Environmental.TemporalMetrics() returned neither or both of object and error"
+			}
+			if o, err := e0.TemporalMetrics().BaseMetrics().Decode(vb); (o == nil) == (err == nil) {
+				return what + ": Decode through Environmental.TemporalMetrics().BaseMetrics() returned neither or both of object and error"
+			}
+		}
+		if c.Kind == "fresh-after-chain-decodes" {
+			b, t, e = m2.NewBase(), m2.NewTemporal(), m2.NewEnvironmental()
+		}
 	case "reset":
 		o, err := decode2(lv, c.Vector, false)
 		if err != nil {
@@ -411,14 +465,30 @@ var checkC12Obj = register("C12/object", func(c objCase) string {
 	default:
 		return ""
 	}
+	var vs []view
 	switch lv {
 	case spec.Base:
-		return probeViews(what, views2(b, nil, nil, lv))
+		vs = views2(b, nil, nil, lv)
 	case spec.Temporal:
-		return probeViews(what, views2(nil, t, nil, lv))
+		vs = views2(nil, t, nil, lv)
+	default:
+		vs = views2(nil, nil, e, lv)
 	}
-	return probeViews(what, views2(nil, nil, e, lv))
+	return probeViews(what, emptyObjectViews(c.Kind, vs))
 })
+
+// emptyObjectViews: whatever the accessors of a nil receiver or of a fresh constructor
+// result return has never been given a vector either, so every view of the chain must
+// report an error and score 0 — whatever its fields look like.
+func emptyObjectViews(kind string, vs []view) []view {
+	if kind == "reset" {
+		return vs
+	}
+	for i := range vs {
+		vs[i].invalid = func() bool { return true }
+	}
+	return vs
+}
 
 // fieldsOf lists (field, level) pairs resettable in an object of the given level.
 func fieldsOf(ver int, level spec.Level) [][2]any {
@@ -465,7 +535,7 @@ func longInputs() []string {
 func TestC12(t *testing.T) {
 	c := begin(t, "C12")
 	defer c.end()
-	c.rec.F.Rule = "strings: the generator mix of C07/C08 for both versions (valid, mutated, single-defect, arbitrary unicode / bytes / alphabet / token soup) at all six decoders through constructor and nil receiver: no panic, exactly one of (object, error) non-nil, then every observer (Score, Severity, GetError, Encode, String, BaseMetrics, TemporalMetrics and the chains through returned sub-objects) on the returned object and on the receiver left behind, then three further Decode calls on that same decoder (no panic, object xor error — nothing else is asserted about a re-used decoder); plus the deterministic hostile shapes of C07 (floods around power-of-two counts, boundary-length tokens, look-alike characters, dense multi-byte text); thorough adds eight constructed 1-4 MiB inputs and native fuzzing. objects: nil receivers and fresh constructor results of all six types, and the complete one-field-reset enumeration (every exported field of every level set to its unknown/invalid constant, with and without a complete round of queries on the still valid object beforehand) over generated accepted vectors: no panic, and where the version or a metric of the queried level (v2: of a present group) is unknown/invalid: GetError != nil, Encode returns an error, Score == 0. Non-trivial = failed decode leaving a partially filled receiver, or a reset / nil / fresh object; distinct by hash of the case."
+	c.rec.F.Rule = "strings: the generator mix of C07/C08 for both versions (valid, mutated, single-defect, arbitrary unicode / bytes / alphabet / token soup) at all six decoders through constructor and nil receiver: no panic, exactly one of (object, error) non-nil, then every observer (Score, Severity, GetError, Encode, String, BaseMetrics, TemporalMetrics and the chains through returned sub-objects) on the returned object and on the receiver left behind, then three further Decode calls on that same decoder (no panic, object xor error — nothing else is asserted about a re-used decoder); plus the deterministic hostile shapes of C07 (floods around power-of-two counts, boundary-length tokens, look-alike characters, dense multi-byte text); thorough adds eight constructed 1-4 MiB inputs and native fuzzing. objects: nil receivers and fresh constructor results of all six types, the same after valid vectors were decoded through the accessor results of nil and of other fresh objects (a nil accessor result is a nil-receiver decoder), and the complete one-field-reset enumeration (every exported field of every level set to its unknown/invalid constant, with and without a complete round of queries on the still valid object beforehand) over generated accepted vectors: no panic, and where the version or a metric of the queried level (v2: of a present group) is unknown/invalid: GetError != nil, Encode returns an error, Score == 0. Non-trivial = failed decode leaving a partially filled receiver, or a reset / nil / fresh object; distinct by hash of the case."
 	c.rec.F.Assumptions = []string{"v2 IsEmpty() on a nil receiver is not among the queries the property lists and is not called on nil receivers", "zero value of every exported enumeration field is its unknown/invalid constant"}
 
 	// ---- nil and fresh objects ------------------------------------------------------------------
@@ -473,7 +543,7 @@ func TestC12(t *testing.T) {
 	if shard == 0 {
 		for _, ver := range []int{2, 3} {
 			for lv := 0; lv < 3; lv++ {
-				for _, kind := range []string{"nil", "fresh"} {
+				for _, kind := range []string{"nil", "fresh", "nil-after-chain-decodes", "fresh-after-chain-decodes"} {
 					cs := objCase{Ver: ver, Level: lv, Kind: kind}
 					c.rec.Case("objects", fmt.Sprintf("%v", cs), true, "object:"+kind)
 					evalEnum(c, "object", cs, checkC12Obj, &nviol)
